@@ -7,6 +7,7 @@ import (
 	"go/types"
 	"golang.org/x/tools/go/cfg"
 	"os"
+	"strings"
 )
 
 func init() {
@@ -38,10 +39,35 @@ func checkC07(p *Prog, r *Report) {
 	r.rule("C07.F7", "every path through a complete group seals every parity shard or calls skipParity, then resets shardCount and maxSize; sealData runs exactly once per encode", 3)
 	r.rule("C07.F8", "received data packets are fed to KCP.Input before and independently of fecDecoder.decode", 1)
 	r.rule("C07.F9", "paws = 0xffffffff / shardSize * shardSize at every store; ids advance modulo paws (C12.K5)", 3)
+	r.rule("C07.F11", "every construction site of the codec (encoder, decoder, decoder retune) passes the same options to reedsolomon.New: sender and receiver compute parity with the same matrix", 3)
 	r.rule("C07.F10", "expected type by position: seqid % shardSize < dataShards <=> data; the discard horizon compares group ages with the wrap-safe signed difference", 2)
 
 	dec := p.FuncOf(p.Method("fecDecoder", "decode"))
 	enc := p.FuncOf(p.Method("fecEncoder", "encode"))
+	{
+		type site struct {
+			fn, pos, opts string
+		}
+		var sites []site
+		p.AllCalls(func(call *ast.CallExpr, fi *FuncInfo) {
+			f := p.Callee(call)
+			if f == nil || f.Pkg() == nil || !strings.HasSuffix(f.Pkg().Path(), "klauspost/reedsolomon") || f.Name() != "New" {
+				return
+			}
+			var opts []string
+			for _, a := range call.Args[min(2, len(call.Args)):] {
+				opts = append(opts, exprString(a))
+			}
+			sites = append(sites, site{rootFuncInfo(fi).Name, p.Pos(call), strings.Join(opts, ",")})
+		})
+		for _, st := range sites {
+			same := st.opts == sites[0].opts
+			r.check(same, "C07.F11", st.fn, st.pos, "reedsolomon.New options in "+st.fn, "same options at every construction site ("+sites[0].opts+")", "this site constructs the codec with options ("+st.opts+"), "+sites[0].fn+" with ("+sites[0].opts+"): parity computed by one is decoded with another matrix by the other, every reconstruction returns garbage")
+		}
+		if len(sites) == 0 {
+			r.bad("C07.F11", "-", "-", "reedsolomon.New", "no codec construction found", "")
+		}
+	}
 	checkFECDecode(p, r, dec)
 	checkFECEncode(p, r, enc)
 	checkFECSession(p, r)
